@@ -21,6 +21,12 @@ KCAP = {"quick": 40, "thorough": 10 ** 9}
 CH_EXT = {"oc": "cxx", "od": "in", "oh": "txt"}
 ERRNO = {"open": errno.EACCES, "write": errno.EIO, "writefrom": errno.ENOSPC, "close": errno.EIO}
 TRACE_SPEC = "ToolRunTrace"
+NAME_LEN = 24     # every output path of a command has the same length: the generated files embed
+                  # the command line and the -oc path, so sizes are only comparable at equal lengths
+
+
+def oname(prefix, ch):
+    return (prefix + ch).ljust(NAME_LEN, "_") + "." + CH_EXT[ch]
 
 
 def big_header(ncls):
@@ -76,7 +82,8 @@ def sources(cmd, parsed, loaderr, work):
     return out
 
 
-def run_one(cmd, rundir, paths, srcs, faults, so, want=None, decl=None, unreadable=False, nfiles=1):
+def run_one(cmd, rundir, paths, srcs, faults, so, want=None, decl=None, unreadable=False, nfiles=1,
+            foreign=()):
     """paths: {ch: absolute output path}; faults: {ch: (op, k)} for the injector; decl: the fault
     kinds announced to the trace spec (covers the static conditions, which need no injector
     fault)."""
@@ -93,7 +100,9 @@ def run_one(cmd, rundir, paths, srcs, faults, so, want=None, decl=None, unreadab
            "FAULTIO_TARGETS": ";".join("%s=%s" % (c, paths[c]) for c in req),
            "FAULTIO_FAULTS": ",".join("%s:%s:%d:%d" % (c, op, k, ERRNO[op]) for c, (op, k) in sorted(faults.items()))}
     r = run.run_tool(cmd.tool, args, cwd=rundir, trace=tr, timeout=60, env=env)
-    present = [c for c in req if os.path.isfile(paths[c]) and not os.path.islink(paths[c])]
+    # `foreign`: channels whose path existed before the run (file-system conditions); whatever is
+    # there afterwards is not an output of this run
+    present = [c for c in req if c not in foreign and os.path.isfile(paths[c]) and not os.path.islink(paths[c])]
     disk = {c: (os.path.getsize(paths[c]) if c in present else -1) for c in req}
     obs = dict(e="Observed", rc=(r.rc if (r.rc is not None and r.rc >= 0) else 255),
                signal=r.signal, timeout=int(r.timed_out), present=present, disk=disk,
@@ -147,16 +156,16 @@ def setup_static(work, ctx):
     """File-system conditions that make open(2) fail / every write fail.  Returns
     {name: (kind, make_path(ch, rundir))}; conditions this sandbox cannot produce are noted."""
     st = {}
-    st["missing-directory"] = ("open", lambda ch, d: os.path.join(d, "no-such-dir", "o." + CH_EXT[ch]))
+    st["missing-directory"] = ("open", lambda ch, d: os.path.join(d, oname("nodir/o-", ch)))
 
     def below_file(ch, d):
         f = os.path.join(d, "plainfile")
         open(f, "w").write("x")
-        return os.path.join(f, "o." + CH_EXT[ch])
+        return os.path.join(d, oname("plainfile/o-", ch))
     st["path-below-regular-file"] = ("open", below_file)
 
     def is_dir(ch, d):
-        p = os.path.join(d, "dir-" + ch + "." + CH_EXT[ch])
+        p = os.path.join(d, oname("dir-", ch))
         os.makedirs(p, exist_ok=True)
         return p
     st["target-is-directory"] = ("open", is_dir)
@@ -172,7 +181,7 @@ def setup_static(work, ctx):
         bites = True
     if bites:
         def ro(ch, d):
-            p = os.path.join(d, "ro-" + ch + "." + CH_EXT[ch])
+            p = os.path.join(d, oname("ro-", ch))
             open(p, "w").write("old contents\n")
             os.chmod(p, 0o444)
             return p
@@ -188,7 +197,7 @@ def setup_static(work, ctx):
             subprocess.run(["chattr", "-i", probe])
         if ok:
             def ro(ch, d):
-                p = os.path.join(d, "ro-" + ch + "." + CH_EXT[ch])
+                p = os.path.join(d, oname("ro-", ch))
                 open(p, "w").write("old contents\n")
                 os.chmod(p, 0o444)
                 subprocess.run(["chattr", "+i", p], check=True)
@@ -220,13 +229,13 @@ def setup_static(work, ctx):
         os.remove(node)
     if full_ok:
         def full(ch, d):
-            p = os.path.join(d, "full-" + ch + "." + CH_EXT[ch])
+            p = os.path.join(d, oname("full-", ch))
             os.mknod(p, stat.S_IFCHR | 0o666, os.makedev(1, 7))
             return p
         st["device-full"] = ("writefrom", full)
     elif os.path.exists("/dev/full") and stat.S_ISCHR(os.stat("/dev/full").st_mode):
         def full(ch, d):
-            p = os.path.join(d, "full-" + ch + "." + CH_EXT[ch])
+            p = os.path.join(d, oname("full-", ch))
             os.symlink("/dev/full", p)
             return p
         st["device-full"] = ("writefrom", full)
@@ -249,7 +258,10 @@ def run_check(ctx):
 
 
 def _run(ctx, tier, so):
+    import time
     work = ctx.tmp
+    t0 = time.time()
+    phase = {}
     # ---- 1. TLC ------------------------------------------------------------------------
     dump = os.path.join(work, "dump.ndjson")
     res = tlc.run("ToolRunMC", CFG[tier], env={"VERIF_DUMP": dump}, coverage=True, timeout=1200)
@@ -265,6 +277,7 @@ def _run(ctx, tier, so):
                              % (neg.verdict, neg.violated))
     ctx.notes["negative_model"] = "CheckAfterWriter=FALSE (code before the fixes): TLC reports %s after %d states" % (
         neg.violated, neg.generated)
+    phase["tlc"] = round(time.time() - t0, 1)
     recs = tlc.read_dump(dump)
     if not recs:
         raise MachineryError("no runs dumped")
@@ -310,8 +323,8 @@ def _run(ctx, tier, so):
 
     def meas(job):
         cmd, req, nf = job
-        d = os.path.join(work, "m-%s-%s-%d" % (cmd.name, "".join(req), nf))
-        paths = {c: os.path.join(d, "o." + CH_EXT[c]) for c in req}
+        d = os.path.join(work, "m%05d" % jobs.index(job))
+        paths = {c: os.path.join(d, oname("out-", c)) for c in req}
         return job, run_one(cmd, d, paths, sources(cmd, ["ok"] * nf, False, work), {}, so, nfiles=nf)
     base_runs = []
     for (cmd, req, nf), o in run.pmap(meas, jobs):
@@ -325,8 +338,8 @@ def _run(ctx, tier, so):
         measure[(cmd.name, tuple(req), nf)] = dict(writes=o["writes"], size=o["disk"])
     if not measure:
         raise MachineryError("no fault-free measurement succeeded")
-    ctx.notes["fault_free_writes"] = {"%s %s nfiles=%d" % (k[0], "+".join(k[1]), k[2]): v["writes"] for k, v in sorted(measure.items())
-                                      if len(k[1]) == len([c for c in COMMANDS if c.name == k[0]][0].chans) and k[2] == 1}
+    ctx.notes["fault_free_writes"] = {"%s %s nfiles=%d" % (k[0], "+".join(k[1]), k[2]): v["writes"]
+                                      for k, v in sorted(measure.items()) if k[2] == 1}
 
     # ---- 4. the replay plan ------------------------------------------------------------
     static = setup_static(work, ctx)
@@ -360,7 +373,16 @@ def _run(ctx, tier, so):
             if not ok:
                 skipped_pos += 1
                 continue
-            for i in range(max(len(v) for v in per.values())):
+            # one fault: every write index; several faults: the positions move in lock-step, first
+            # and last representative of the range (one when more than one source file is parsed)
+            width = max(len(v) for v in per.values())
+            if len(sched) == 1:
+                picks = range(width)
+            elif nf == 1 or tier == "thorough":
+                picks = sorted({0, width - 1})
+            else:
+                picks = [width // 2]
+            for i in picks:
                 plan.append((cmd, rec, {c: v[i % len(v)] for c, v in per.items()}, {}, "injected"))
             # file-system realisations of the same schedule: every open fault by each condition,
             # a persistent write fault at the first position by the full device
@@ -368,7 +390,7 @@ def _run(ctx, tier, so):
                 chans = [c for c, f in sched.items() if (kind == "open" and f["op"] == "open") or
                          (kind == "writefrom" and f["op"] == "writefrom" and
                           (posclass(f) == "first" or (posclass(f) == "last" and m["writes"][c] == 1)))]
-                if chans and len(sched) <= 2:
+                if chans and (len(sched) == 1 or len(chans) == len(sched)) and (nf == 1 or tier == "thorough"):
                     rest = {c: per[c][0] for c in sched if c not in chans}
                     plan.append((cmd, rec, rest, {c: name for c in chans}, name))
     ctx.notes["schedules_without_concrete_position"] = skipped_pos
@@ -381,7 +403,7 @@ def _run(ctx, tier, so):
         req = [c for c in cmd.chans if c in rec["req"]]
         paths = {}
         for c in req:
-            paths[c] = static[stat_[c]][1](c, d) if c in stat_ else os.path.join(d, "o." + CH_EXT[c])
+            paths[c] = static[stat_[c]][1](c, d) if c in stat_ else os.path.join(d, oname("out-", c))
         nf = len(rec["parsed"])
         m = measure.get((cmd.name, tuple(req), nf))
         decl = {c: op for c, (op, k) in assign.items()}
@@ -393,10 +415,12 @@ def _run(ctx, tier, so):
             total = rec["nfiles"]
             srcs = srcs + [os.path.join(work, "small%d.h" % (i + 1)) for i in range(len(rec["parsed"]), total)]
         o = run_one(cmd, d, paths, srcs, assign, so, want=(m["size"] if m else None), decl=decl,
-                    unreadable=("unread" in rec["parsed"]), nfiles=rec["nfiles"])
+                    unreadable=("unread" in rec["parsed"]), nfiles=rec["nfiles"], foreign=tuple(stat_))
         return item, o, paths
 
+    t1 = time.time()
     results = run.pmap(replay, list(enumerate(plan)))
+    phase["replay"] = round(time.time() - t1, 1)
     distinct = set()
     nontrivial = set()
     traces = []
@@ -452,7 +476,10 @@ def _run(ctx, tier, so):
                         expected_exit=rec["exit"], observed_exit=o["rc"], bytes_on_disk=o["disk"]))
 
     # ---- 6. trace validation -------------------------------------------------------------
+    t2 = time.time()
     nev = validate(ctx, traces, work)
+    phase["trace_validation"] = round(time.time() - t2, 1)
+    ctx.notes["phase_seconds"] = phase
     ctx.notes["trace_events_validated"] = nev
     ctx.notes["traces_validated"] = len(traces)
     ctx.assumptions += [
